@@ -123,7 +123,9 @@ def check(case):
             for n, m in ref.uvars.items():
                 u_om[m['off']:m['off'] + m['size']] = np.asarray(p.get_val(n)).ravel()
             x = ref.x0
-            if not np.all(np.isfinite(u_om)):
+            if not np.all(np.isfinite(u_om)) or (u_om.size and float(np.max(np.abs(u_om))) > 1e12):
+                # a solver that stops on its relative tolerance at an astronomically large iterate (overflow regime of
+                # the generated maps) reports convergence without being near a root: outside the premise
                 res.discard = 'nonfinite'
                 res.classes = cls + ['nonfinite']
                 return res
@@ -170,7 +172,11 @@ def check(case):
             res.fail(tag(known, sig), f"mode={mode}: {type(e).__name__}: {e}")
             continue
         J = np.asarray(J)
-        tol = 1e-9 * max(1.0, cond) * (float(np.max(np.abs(Jref))) if Jref.size else 0.0) + 1e-11
+        # relative to the largest entry of the block, plus the round-off floor of the linear solve itself, which is
+        # relative to the largest total derivative of the whole model (a block that is exactly zero in exact arithmetic is
+        # obtained by cancelling terms of that size)
+        floor = 1e-11 + 8 * np.finfo(float).eps * max(1.0, cond) * (1.0 + (float(np.max(np.abs(dudx))) if np.size(dudx) else 0.0))
+        tol = 1e-9 * max(1.0, cond) * (float(np.max(np.abs(Jref))) if Jref.size else 0.0) + floor
         if J.shape != Jref.shape:
             res.fail(tag(known, 'totals:shape'), f"mode={mode} shape {J.shape} expected {Jref.shape}")
             continue
@@ -228,6 +234,7 @@ def driver_totals(p, spec, ref, dudx, cond, driver_scaling, mode):
             raise
         return [(sig, f"mode={mode}: {type(e).__name__}: {e}")]
     rt = 1e-9 * max(1.0, cond)
+    floor = 1e-11 + 8 * np.finfo(float).eps * max(1.0, cond) * (1.0 + (float(np.max(np.abs(dudx))) if np.size(dudx) else 0.0))
     for r in spec['responses']:
         ok, op, om_ = ref.var_positions(r['name'], r.get('indices'), r.get('flat_indices'))
         fr = conv(om_['units'], r.get('units'))[0] if r.get('units') else 1.0
@@ -246,7 +253,7 @@ def driver_totals(p, spec, ref, dudx, cond, driver_scaling, mode):
                 # compare in model units: every entry is divided by its own scale factor, so that a large or small
                 # factor can neither hide an error nor turn round-off into one
                 got = got / ((sr * fr)[:, None] / (sd * fd)[None, :])
-            tol = rt * (float(np.max(np.abs(Jr))) if Jr.size else 0.0) + 1e-11
+            tol = rt * (float(np.max(np.abs(Jr))) if Jr.size else 0.0) + floor
             if got.shape != Jr.shape or (got.size and float(np.max(np.abs(got - Jr))) > tol):
                 out.append((f"driver-totals:{'scaled' if driver_scaling else 'unscaled'}-block-differs-from-reference",
                             f"mode={mode} {key}: got {got.tolist()} expected {Jr.tolist()}"))
@@ -344,7 +351,7 @@ def strategy(tier):
 
 def units(tier, seed):
     n = 16 if tier == 'quick' else 32
-    per = 40 if tier == 'quick' else 2500
+    per = 40 if tier == 'quick' else 600
     return [{'kind': 'random', 'n': per, 'seed': core.shard_seed(seed, ID, i)} for i in range(n)]
 
 
